@@ -251,20 +251,29 @@ Fixpoint xsrun (h : list sop) (ops : list xhop) (macc : list xout) : list xout *
    bytes behind it.  This is what walking the path element by element has to
    show after any history of path operations. *)
 Record apath := mkap { aelems : list name; apost : list byte; abin : bool; asep : byte; aassign : byte;
-                        anull : bool (* no storage yet: nothing can be added *) }.
+                        anull : bool (* no storage yet: nothing can be added *);
+                        astr : option byte
+                        (* Some t: the path lies in the CALLER's string (mpt_path_set): [apost] are the caller's bytes
+                           behind the path, t is the byte at the end position of the path (the assign character, the
+                           NUL, a separator after mpt_path_del).  None: the path owns its storage, [apost] is the post
+                           data appended with mpt_path_addchar. *) }.
 
 Definition has_byte (c : byte) (l : list byte) : bool := existsb (beq c) l.
 
 Definition astep (a : apath) (o : pop) : apath * pret :=
-  let keep e po := mkap e po (abin a) (asep a) (aassign a) (anull a) in
+  let keep e po := mkap e po (abin a) (asep a) (aassign a) (anull a) (astr a) in
   match o with
-  | PSet None _ => (mkap [] [] false (asep a) (aassign a) true, RNum 0)
+  | PSet None _ => (mkap [] [] false (asep a) (aassign a) true None, RNum 0)
   | PSet (Some s) len =>
-    let data := match len with None => upto 0%N s ++ [0%N] | Some n => firstn n (s ++ [0%N]) end in
+    let mem := s ++ [0%N] in
+    let data := match len with None => upto 0%N s ++ [0%N] | Some n => firstn n mem end in
     let body := upto (aassign a) data in
     (* a string ends at its NUL even when that is not the assign character *)
     let body := match len with None => upto 0%N body | Some _ => body end in
-    (mkap (split (asep a) body) [] false (asep a) (aassign a) false, RNum 0)
+    (* the path covers the elements and one byte more (where the assign character / terminator is or would be);
+       what follows in the caller's buffer is behind the path *)
+    (mkap (split (asep a) body) (skipn (length body + 1) mem) false (asep a) (aassign a) false
+          (Some (nth (length body) mem 0%N)), RNum 0)
   | PNext =>
     match aelems a with
     | [] => (a, RErr MissingData)
@@ -278,24 +287,39 @@ Definition astep (a : apath) (o : pop) : apath * pret :=
   | PDel =>
     match rev (aelems a) with
     | [] => (a, RErr MissingData)
-    | e :: r => (keep (rev r) [], RNum (length e))
+    | e :: r =>
+      match astr a with
+      | None => (keep (rev r) [], RNum (length e))
+      (* in the caller's string nothing is cut: the element and its end byte are behind the path again,
+         which now ends at the separator in front of it *)
+      | Some t => (mkap (rev r) (e ++ t :: apost a) (abin a) (asep a) (aassign a) (anull a) (Some (asep a)), RNum (length e))
+      end
     end
   | PAdd n =>
     if anull a then (a, RErr MissingBuffer)
     else if length (apost a) <? n then (a, RErr BadValue)
     else
       let e := firstn n (apost a) in
+      (* a path in the caller's string is copied with the new element into storage of its own: nothing is
+         behind it afterwards (a further element needs post data) *)
+      let rest k := match astr a with Some _ => [] | None => skipn k (apost a) end in
+      let own e po := mkap e po (abin a) (asep a) (aassign a) (anull a) None in
       if abin a then
         if 255 <? n then (a, RErr BadValue)
-        else (keep (aelems a ++ [e]) (skipn (n + 2) (apost a)), RNum 0)
+        else (own (aelems a ++ [e]) (rest (n + 2)), RNum 0)
       else
         if has_byte (asep a) e then (a, RErr BadValue)
-        else (keep (aelems a ++ [e]) (skipn (n + 1) (apost a)), RNum 0)
-  | PPost d => (mkap (aelems a) (apost a ++ d) (abin a) (asep a) (aassign a) (match d with [] => anull a | _ => false end), RNum 0)
-  | PBin => (mkap (aelems a) (apost a) true (asep a) (aassign a) (anull a), RNum 0)
-  | PClear _ => (keep (aelems a) [], RNum 0)
+        else (own (aelems a ++ [e]) (rest (n + 1)), RNum 0)
+  | PPost d =>
+    match d with
+    | [] => (a, RNum 0)
+    (* the first appended byte moves a path out of the caller's string: only the path itself is copied *)
+    | _ => (mkap (aelems a) ((match astr a with Some _ => [] | None => apost a end) ++ d) (abin a) (asep a) (aassign a) false None, RNum 0)
+    end
+  | PBin => (mkap (aelems a) (apost a) true (asep a) (aassign a) (anull a) (astr a), RNum 0)
+  | PClear _ => match astr a with Some _ => (a, RNum 0) | None => (keep (aelems a) [], RNum 0) end
   | PCopy => (a, RNum 0)
   | PSep sep asg =>
     (mkap (aelems a) (apost a) (abin a) (match sep with Some c => c | None => asep a end)
-          (match asg with Some c => c | None => aassign a end) (anull a), RNum 0)
+          (match asg with Some c => c | None => aassign a end) (anull a) (astr a), RNum 0)
   end.
